@@ -1,11 +1,12 @@
 # Sourced by every script of /verif.  Offline build environment for grpc-go harnesses.
 export VERIF_ROOT="${VERIF_ROOT:-$(cd "$(dirname "${BASH_SOURCE[0]}")/.." && pwd)}"
 export VERIF_REPO="${VERIF_REPO:-/repo}"
-_tc="$(ls -d /root/go/pkg/mod/golang.org/toolchain@v0.0.1-go1.25.0.linux-amd64 2>/dev/null | head -1)"
-if [ -n "$_tc" ] && [ -x "$_tc/bin/go" ]; then
-  export GO="$_tc/bin/go"
-else
-  export GO="$(command -v go)"
-fi
+# go1.26.8 preferred (go1.25.0's synctest runtime has a rare infinite-loop bug, see check).
+GO=""
+for _tc in "${VERIF_GO:-}" /opt/veriftools/go1.26.8/bin/go /root/go/pkg/mod/golang.org/toolchain@v0.0.1-go1.26.8.linux-amd64/bin/go /root/go/pkg/mod/golang.org/toolchain@v0.0.1-go1.25.0.linux-amd64/bin/go; do
+  if [ -n "$_tc" ] && [ -x "$_tc" ]; then GO="$_tc"; break; fi
+done
+[ -n "$GO" ] || GO="$(command -v go)"
+export GO
 export GOFLAGS=-mod=mod GOPROXY=off GOSUMDB=off GOTOOLCHAIN=local GONOSUMDB='*' GONOSUMCHECK=1 GOFLAGS=-mod=mod
 export CGO_ENABLED=1
